@@ -50,8 +50,52 @@ pub fn gen(rng: &mut Rng) -> Prog {
     let mut seg = Seg::Code;
     let n_steps = 5 + rng.usize(36);
     let mut marker = 0i64;
+    // one program in three selects a part (one with every pointer register, jmp/call and 4 KiB of RAM and EEPROM)
+    let with_device = rng.chance(1, 3);
+    if with_device {
+        nodes.push(Node::Device("ATmega128".into()));
+    }
+    // next explicit origin in .dseg / .eseg (far enough apart that no piece reaches the next)
+    let mut org_next: [i64; 2] = [0x200, 0x100];
+    let mut well_known: Vec<&str> = vec!["xl", "xh", "yl", "yh", "zl", "zh"];
     for _ in 0..n_steps {
-        match rng.below(16) {
+        match rng.below(17) {
+            16 => {
+                // a piece with an origin of its own that (at first) holds nothing but symbol directives
+                let k = rng.usize(2);
+                if org_next[k] > 0xf00 {
+                    continue;
+                }
+                seg = if k == 0 { Seg::Data } else { Seg::Eeprom };
+                nodes.push(Node::Seg(seg));
+                nodes.push(Node::Org(E::Lit(org_next[k], 1)));
+                org_next[k] += 0x100;
+                for _ in 0..1 + rng.below(3) {
+                    match rng.below(3) {
+                        0 if !set_live.is_empty() => {
+                            let si = *rng.pick(&set_live);
+                            let nm = syms[si].name.clone();
+                            syms[si].def_nodes.push(nodes.len());
+                            nodes.push(Node::Set(cs(&nm, rng), E::Lit(rng.range(0, 60000), 0)));
+                        }
+                        1 if !live_alias.is_empty() => {
+                            let k = rng.usize(live_alias.len());
+                            let ai = live_alias.remove(k);
+                            aliases[ai].3 = Some(nodes.len());
+                            let nm = aliases[ai].0.clone();
+                            nodes.push(Node::Undef(cs(&nm, rng)));
+                        }
+                        _ => {
+                            let name = names.fresh("al", rng);
+                            let reg = rng.below(32) as u8;
+                            aliases.push((name.clone(), reg, nodes.len(), None));
+                            live_alias.push(aliases.len() - 1);
+                            syms.push(Sym { name: name.clone(), kind: "def", def_nodes: vec![nodes.len()], used: false });
+                            nodes.push(Node::Def(cs(&name, rng), reg));
+                        }
+                    }
+                }
+            }
             // ---- definitions
             0 | 1 => {
                 // code label (early)
@@ -119,7 +163,9 @@ pub fn gen(rng: &mut Rng) -> Prog {
             }
             7 => {
                 // .def (new alias, or re-alias after an .undef)
-                let name = names.fresh("al", rng);
+                // (now and then one of the names part definition files give to the pointer register halves -
+                // here they are ordinary aliases of whatever register the program says)
+                let name = if !well_known.is_empty() && rng.chance(1, 4) { well_known.remove(rng.usize(well_known.len())).to_string() } else { names.fresh("al", rng) };
                 let reg = rng.below(32) as u8;
                 aliases.push((name.clone(), reg, nodes.len(), None));
                 live_alias.push(aliases.len() - 1);
@@ -179,6 +225,11 @@ pub fn gen(rng: &mut Rng) -> Prog {
                         (2, "label-data") => nodes.push(Node::instr("lds", vec![Opnd::Reg(rng.below(32) as u8), Opnd::Expr(s)])),
                         (2, "label-code") | (3, "label-code") => nodes.push(Node::instr(*rng.pick(&["rjmp", "rcall", "jmp", "call"]), vec![Opnd::Expr(s)])),
                         (3, "label-data") => nodes.push(Node::instr("sts", vec![Opnd::Expr(s), Opnd::Reg(rng.below(32) as u8)])),
+                        // any number may stand for a data address: the position of an EEPROM label, a constant
+                        (2, "label-eeprom") => nodes.push(Node::instr("lds", vec![Opnd::Reg(rng.below(32) as u8), Opnd::Expr(s)])),
+                        (3, "label-eeprom") => nodes.push(Node::instr("sts", vec![Opnd::Expr(s), Opnd::Reg(rng.below(32) as u8)])),
+                        (5, "equ") => nodes.push(Node::instr("lds", vec![Opnd::Reg(rng.below(32) as u8), Opnd::Expr(E::bin(Bin::And, s, E::Lit(0xffff, 1)))])),
+                        (5, "set") => nodes.push(Node::instr("sts", vec![Opnd::Expr(E::bin(Bin::And, s, E::Lit(0xffff, 1))), Opnd::Reg(rng.below(32) as u8)])),
                         (4, _) => nodes.push(Node::Data { label: None, width: 4, ops: vec![DataOp::E(s), DataOp::E(E::Lit(marker, 0))] }),
                         _ => nodes.push(Node::Data { label: None, width: 2, ops: vec![DataOp::E(E::Func("lwrd", Box::new(s)))] }),
                     }
@@ -187,6 +238,19 @@ pub fn gen(rng: &mut Rng) -> Prog {
                 }
             }
         }
+    }
+    // every segment that was given an origin gets something placed in the end, without an origin of its own: the
+    // lines then land behind whatever the last origin piece of that segment holds (an origin behind which
+    // nothing at all is ever placed is left out: whether the image reaches up to it is not stated anywhere)
+    if org_next[0] > 0x200 {
+        nodes.push(Node::Seg(Seg::Data));
+        nodes.push(Node::Reserve { label: None, n: E::Lit(1, 0) });
+        seg = Seg::Data;
+    }
+    if org_next[1] > 0x100 {
+        nodes.push(Node::Seg(Seg::Eeprom));
+        nodes.push(Node::Data { label: None, width: 1, ops: vec![DataOp::E(E::Lit(0xa5, 1))] });
+        seg = Seg::Eeprom;
     }
     // late definitions (forward-referenced .equ) and a late code label that earlier code may already have used
     if seg != Seg::Code {
@@ -386,6 +450,63 @@ pub fn check_program(ctx: &Ctx, p: &Prog, rng: &mut Rng, all_mutants: bool) {
             check_must_fail(ctx, &m, "label-with-the-name-of-an-equ", &format!("`{}` defined by .equ and as a label", s.name));
         }
     }
+    // (2d) the name is also a #define (first thing in the program, or after everything else), in another
+    // letter case: two definitions of one name, and the #define would silently win wherever it is used
+    for s in used.iter() {
+        if !all_mutants && !rng.chance(1, 2) {
+            continue;
+        }
+        let at_top = rng.chance(1, 2);
+        let mut m = p.nodes.clone();
+        let other_case = if s.name.chars().any(|c| c.is_ascii_lowercase()) { s.name.to_uppercase() } else { s.name.to_lowercase() };
+        let spelled = if rng.chance(1, 2) { other_case } else { s.name.clone() };
+        if at_top {
+            let at = m.iter().take(3).position(|n| matches!(n, Node::Device(_))).map(|i| i + 1).unwrap_or(1);
+            m.insert(at, Node::Define(spelled.clone()));
+        } else {
+            m.push(Node::Define(spelled.clone()));
+        }
+        m.push(Node::Seg(Seg::Code));
+        if s.kind == "def" {
+            m.push(Node::Def(s.name.clone(), 7));
+            m.push(Node::instr("inc", vec![Opnd::Alias(s.name.clone())]));
+        } else {
+            m.push(Node::Data { label: None, width: 2, ops: vec![DataOp::E(E::Sym(spelled))] });
+        }
+        check_must_fail(ctx, &m, &format!("{}-with-the-name-of-a-define{}", s.kind, if at_top { "" } else { "-made-later" }), &format!("`{}` is also a #define", s.name));
+    }
+    // (2e) names that are taken from the start: the location counter, the registers
+    {
+        let pc = *rng.pick(&["pc", "PC", "Pc"]);
+        let mut m = p.nodes.clone();
+        m.push(Node::Seg(Seg::Code));
+        m.push(Node::Instr { label: Some(pc.into()), form: crate::refmodel::isa::form_index("nop"), ops: vec![] });
+        m.push(Node::Data { label: None, width: 2, ops: vec![DataOp::E(E::Sym(pc.into()))] });
+        check_must_fail(ctx, &m, "label-named-pc", "a label named pc");
+        let mut m = p.nodes.clone();
+        m.insert(1 + m.iter().take(3).position(|n| matches!(n, Node::Device(_))).map(|i| i + 1).unwrap_or(0), Node::Equ(pc.into(), E::Lit(7, 0)));
+        m.push(Node::Seg(Seg::Code));
+        m.push(Node::instr("rjmp", vec![Opnd::Expr(E::Sym(pc.into()))]));
+        check_must_fail(ctx, &m, "equ-named-pc", "an .equ named pc");
+        let r = rng.below(32);
+        let mut m = p.nodes.clone();
+        m.push(Node::Seg(Seg::Code));
+        m.push(Node::Def(format!("{}{}", if rng.chance(1, 2) { "r" } else { "R" }, r), ((r + 5) % 32) as u8));
+        m.push(Node::instr("inc", vec![Opnd::Reg(r as u8)]));
+        check_must_fail(ctx, &m, "alias-named-like-a-register", "a .def whose name is a register");
+    }
+    // (3b) `.undef` with two names ends both aliases
+    {
+        let live: Vec<&(String, u8, usize, Option<usize>)> = p.aliases.iter().filter(|a| a.3.is_none()).collect();
+        if live.len() >= 2 {
+            let (a, b) = (live[0], live[live.len() - 1]);
+            let mut m = p.nodes.clone();
+            m.push(Node::Seg(Seg::Code));
+            m.push(Node::Undef(format!("{}, {}", spell::case(&a.0, rng), spell::case(&b.0, rng))));
+            m.push(Node::instr("inc", vec![Opnd::Alias(b.0.clone())]));
+            check_must_fail(ctx, &m, "alias-after-undef-of-two", &format!("alias `{}` used after `.undef {}, {}`", b.0, a.0, b.0));
+        }
+    }
     // (2c) a second .def of a live alias on another register, used afterwards: an error, or (the AVR
     // assembler manual lets a .def be redefined) the alias is rebound - never silently the old register
     for (nm, reg, d, undef) in p.aliases.iter() {
@@ -481,7 +602,7 @@ pub fn run(ctx: &Ctx) -> i32 {
     });
     fw::finish(
         ctx,
-        "programs of 5-40 steps defining and using code/data/EEPROM labels, .equ (chained, forward-defined), .set (reassignment chains incl. `v = v + k`) and .def/.undef/.def aliases, every definition and reference in independently random letter case, referenced from ldi low()/high(), lds/sts, rjmp/rcall/jmp/call and .dw/.dd; per program all single-symbol mutants: delete each referenced definition, duplicate each label, define each .equ a second time with another value, each label also by .equ and each .equ also as a label, redefine each live alias on another register (refused, or rebound - never the old register), use each alias after its .undef, reference names that stand only in unassembled text (unselected branch, labels in front of the directives of a chain nested in it, `.else` after a taken branch), undefined names in data/instruction/alias position (all must fail), and every alias replaced by its register (identical image); counters lookup:* = LOOKUP hook events by answering table; distinct_nontrivial = distinct base program texts",
+        "programs of 5-40 steps defining and using code/data/EEPROM labels, .equ (chained, forward-defined), .set (reassignment chains incl. `v = v + k`) and .def/.undef/.def aliases, every definition and reference in independently random letter case, referenced from ldi low()/high(), lds/sts, rjmp/rcall/jmp/call and .dw/.dd; per program all single-symbol mutants: delete each referenced definition, duplicate each label, define each .equ a second time with another value, each label also by .equ and each .equ also as a label, redefine each live alias on another register (refused, or rebound - never the old register), use each alias after its .undef (also after an .undef that names two aliases), give each referenced name also to a #define (before everything else or after it, in the same or another letter case), a label and an .equ named pc, a .def named like a register, reference names that stand only in unassembled text (unselected branch, labels in front of the directives of a chain nested in it, `.else` after a taken branch), undefined names in data/instruction/alias position (all must fail), and every alias replaced by its register (identical image); counters lookup:* = LOOKUP hook events by answering table; distinct_nontrivial = distinct base program texts",
         &["refmodel/layout.rs binding rules (labels and .equ global and lazy, .set sequential in source order, .def live from definition to .undef)", "a second .def of a live alias without .undef may be refused or rebind the alias (both documented behaviours); silently keeping the old register is a violation"],
     )
 }
